@@ -373,7 +373,7 @@ void run_C04(void) {
     case_end(1);
   }
   // products on worst-case operands: every kernel, ref and avx2
-  static const int FAMS[] = {QF_ALLMAX, QF_ALTERNATE, QF_SINGLEMAX, QF_NONCANON, QF_NEARMULT, QF_WORD32, QF_WORD32MAX, QF_MIXEDWIDTH, QF_HIGH32};
+  static const int FAMS[] = {QF_ALLMAX, QF_ALTERNATE, QF_SINGLEMAX, QF_NONCANON, QF_NEARMULT, QF_WORD32, QF_WORD32MAX, QF_MIXEDWIDTH, QF_HIGH32, QF_LANESPLIT};
   for (int k = 0; k < N_KERNELS; k++)
     for (int avx2 = 0; avx2 <= 1; avx2++) {
       if (!q120_kernel_has((q120_kernel_t)k, avx2)) continue;
@@ -425,9 +425,11 @@ void run_C04(void) {
     case_end(ell >= 1);
   }
   // traced transforms
-  for (int k = 16; k >= 0; k--) {
+  for (int j = 16; j >= 0; j--) {  // the first table a process builds: forward / inverse, large / small, by partition
+    const int k = (G.part & 4) ? 16 - j : j;
+    if (G.part & 2) T_INTT[k] = q120_new_intt_bb_precomp(1ull << k);
     T_NTT[k] = q120_new_ntt_bb_precomp(1ull << k);
-    T_INTT[k] = q120_new_intt_bb_precomp(1ull << k);
+    if (!(G.part & 2)) T_INTT[k] = q120_new_intt_bb_precomp(1ull << k);
   }
   for (unsigned k = 0; k <= 16; k++) {
     const uint64_t n = 1ull << k;
